@@ -36,7 +36,7 @@ HELPERS = r"""
 c44_pats(Ps, Rs) :-
     findall(R, ( member(p(F,V), Ps),
                  catch(( findall(F-V, current_prolog_flag(F,V), L), R = sols(L) ), error(E,_), R = err(E)) ), Rs).
-c44_text("\"ab\". ").
+c44_text("t(\"ab\", \"\", \"a\", f(\"\", \"b\"), [\"\", \"ab\"]). ").
 c44_read(R) :- c44_text(Cs), catch(( read_term_from_chars(Cs, T, []), R = ok(T) ), error(E,_), R = err(E)).
 """
 
